@@ -21,7 +21,7 @@ From V Require C05.MsmModel C05.StreamModel C05.GroupProofs C05.MsmProofs C05.Ru
 From V Require Import Link.SubGroup Link.SWGroup Link.TEGroup Link.SWRealises Link.TERealises
   Link.Examples Link.ExamplesTE.
 From V Require Import Props.Link Props.C12.
-From V Require Import Assoc.SWIdent Assoc.SWAssoc Assoc.TEAssoc.
+From V Require Import Assoc.SWIdent Assoc.SWAssoc Assoc.TEAssoc Assoc.Examples.
 
 (* ================= twisted Edwards ================= *)
 
@@ -190,36 +190,45 @@ Theorem Assoc_sw_default_test_iff_rP_zero : forall T (F : Fops T) (a b : T), goo
   (sw_in_subgroup_default F a hl r P = true <-> sw_nsmul F a (Z.to_nat r) P = None).
 Proof. exact (fun T F a b G D => C12_default_test_iff_rP_zero T F a b G (sw_assoc F a b G D)). Qed.
 
-(* ================= the remaining hypotheses are satisfiable: F_13 ================= *)
-(* y^2 = x^3 + 2 over F_13: discriminant 27 * 4 = 4 <> 0 *)
-Lemma disc_13 : sw_disc F13 a13 b13 <> f0 F13.
-Proof. intro H. apply (f_equal (@fpv 13)) in H. vm_compute in H. discriminate H. Qed.
+(* ================= the remaining hypotheses are satisfiable: F_13 (coq/Assoc/Examples.v) ================= *)
+(* y^2 = x^3 + 2 over F_13: discriminant 4 * 0 + 27 * 4 = 4 <> 0; on-curve representatives *)
 Example Assoc_example_sw_premises :
   good_field F13 /\ sw_disc F13 a13 b13 <> f0 F13 /\ jac_on F13 a13 b13 P13 /\ aff_on F13 a13 b13 A13 /\ wf [5; 0].
 Proof. exact (conj F13_good (conj disc_13 (conj P13_on (conj A13_on ex_wf)))). Qed.
-(* hence (this time without exhausting the triples of the curve): mul_bigint on the representative (4, 6, 2)
-   of (1, 4), every limb slice *)
+(* hence (this time WITHOUT exhausting the triples of the curve): mul_bigint on the representative
+   (4, 6, 2) of (1, 4), every limb slice *)
 Example Assoc_example_sw_double_and_add : forall limbs, wf limbs ->
   jac_on F13 a13 b13 (C04.ScalarMul.mul_bigint_proj (C04.Run.sw_gops F13 a13) limbs P13) /\
   sw_to_affine F13 (C04.ScalarMul.mul_bigint_proj (C04.Run.sw_gops F13 a13) limbs P13)
   = C04.GroupTheory.smul (aff_add_sw F13 a13) (aff_neg_sw F13) None (val limbs) (sw_to_affine F13 P13).
 Proof. exact (fun limbs H => Assoc_sw_double_and_add _ F13 a13 b13 F13_good disc_13 limbs P13 H P13_on). Qed.
-Example Assoc_example_sw_msm :
-  exists g, C05.MsmModel.msm_bigint (C05.Run.sw_gops F13 a13) true 3 [A13; A13] [[5; 0]; [3; 0]] = C05.MsmModel.Ok g /\
-            jac_on F13 a13 b13 g.
+(* 5 . (1,4) + 3 . (1,4) through msm_bigint (3-bit scalars, both bucket methods) *)
+Example Assoc_example_sw_msm : forall cheap,
+  exists g, C05.MsmModel.msm_bigint (C05.Run.sw_gops F13 a13) cheap 3 [A13; A13] [[5; 0]; [3; 0]] = C05.MsmModel.Ok g /\
+            jac_on F13 a13 b13 g /\
+            sw_to_affine F13 g = C05.GroupProofs.msum (aff_add_sw F13 a13) None
+              (map (fun p => C05.GroupProofs.smul (aff_add_sw F13 a13) (aff_neg_sw F13) None (val (fst p)) (snd p))
+                   (combine [[5; 0]; [3; 0]] [A13; A13])).
 Proof.
-  destruct (Assoc_sw_msm _ F13 a13 b13 F13_good disc_13 true 3 [A13; A13] [[5; 0]; [3; 0]]) as (g & E & Hg & _).
-  - lia.
-  - vm_compute. reflexivity.
-  - repeat constructor; exact A13_on.
-  - repeat constructor; try (unfold u64, W64; lia); vm_compute; try reflexivity; intro K; discriminate K.
-  - exists g. split; assumption.
+  exact (fun cheap => Assoc_sw_msm _ F13 a13 b13 F13_good disc_13 cheap 3 [A13; A13] [[5; 0]; [3; 0]]
+                        (proj1 (Z.leb_le 1 3) eq_refl) msm_len_13 msm_bases_13 msm_scalars_13).
 Qed.
 (* 12 x^2 + y^2 = 1 + 6 x^2 y^2 over F_13 (a = 5^2, d = 6 a non-square): complete, valid representative *)
-Example Assoc_example_te_premises : te_law_complete F13 ta13 td13 /\ okR F13 ta13 td13 Q13 /\ wf [5; 0].
-Proof. exact (conj te_complete_13 (conj Q13_ok ex_wf)). Qed.
+Example Assoc_example_te_premises :
+  te_law_complete F13 ta13 td13 /\ okR F13 ta13 td13 Q13 /\ te_aff_on F13 ta13 td13 B13te /\ wf [5; 0].
+Proof. exact (conj te_complete_13 (conj Q13_ok (conj B13te_on ex_wf))). Qed.
 Example Assoc_example_te_double_and_add : forall limbs, wf limbs ->
   okR F13 ta13 td13 (C04.ScalarMul.mul_bigint_proj (C04.Run.te_gops F13 ta13 td13) limbs Q13) /\
   te_to_affine F13 (C04.ScalarMul.mul_bigint_proj (C04.Run.te_gops F13 ta13 td13) limbs Q13)
   = C04.GroupTheory.smul (aff_add_te F13 ta13 td13) (aff_neg_te F13) (te_aff_zero F13) (val limbs) (te_to_affine F13 Q13).
 Proof. exact (fun limbs H => Assoc_te_double_and_add _ F13 ta13 td13 F13_good te_complete_13 limbs Q13 H Q13_ok). Qed.
+Example Assoc_example_te_msm : forall cheap,
+  exists g, C05.MsmModel.msm_bigint (C05.Run.te_gops F13 ta13 td13) cheap 3 [B13te; B13te] [[5; 0]; [3; 0]] = C05.MsmModel.Ok g /\
+            okR F13 ta13 td13 g /\
+            te_to_affine F13 g = C05.GroupProofs.msum (aff_add_te F13 ta13 td13) (te_aff_zero F13)
+              (map (fun p => C05.GroupProofs.smul (aff_add_te F13 ta13 td13) (aff_neg_te F13) (te_aff_zero F13) (val (fst p)) (snd p))
+                   (combine [[5; 0]; [3; 0]] [B13te; B13te])).
+Proof.
+  exact (fun cheap => Assoc_te_msm _ F13 ta13 td13 F13_good te_complete_13 cheap 3 [B13te; B13te] [[5; 0]; [3; 0]]
+                        (proj1 (Z.leb_le 1 3) eq_refl) msm_len_13te msm_bases_13te msm_scalars_13).
+Qed.
